@@ -309,14 +309,18 @@ func (p *Parser) parseItem() (secs2.Item, error) {
 
 	p.skipComment()
 
+	// The declared size only pre-sizes buffers below. Every element takes at least one input byte, so
+	// never reserve more than the unread input could hold: "<L[2000000000]>" must not allocate 32 GB.
+	sizeHint := min(maxSize, len(p.data))
+
 	var item secs2.Item
 	// parse data item body
 	switch itemType {
 	case secs2.ListFormatCode:
-		item, err = p.parseList(maxSize)
+		item, err = p.parseList(sizeHint)
 	case secs2.ASCIIFormatCode:
 		if p.strict {
-			item, err = p.parseASCIIStrict(maxSize)
+			item, err = p.parseASCIIStrict(sizeHint)
 		} else {
 			item, err = p.parseASCIIFast(maxSize)
 		}
@@ -325,29 +329,29 @@ func (p *Parser) parseItem() (secs2.Item, error) {
 	case secs2.LocalizedStrFormatCode:
 		item, err = p.parseLocalizedStr()
 	case secs2.BooleanFormatCode:
-		item, err = p.parseBoolean(maxSize)
+		item, err = p.parseBoolean(sizeHint)
 	case secs2.BinaryFormatCode:
-		item, err = p.parseBinary(maxSize)
+		item, err = p.parseBinary(sizeHint)
 	case secs2.Float32FormatCode:
-		item, err = p.parseFloat(4, maxSize)
+		item, err = p.parseFloat(4, sizeHint)
 	case secs2.Float64FormatCode:
-		item, err = p.parseFloat(8, maxSize)
+		item, err = p.parseFloat(8, sizeHint)
 	case secs2.Int8FormatCode:
-		item, err = p.parseInt(1, maxSize)
+		item, err = p.parseInt(1, sizeHint)
 	case secs2.Int16FormatCode:
-		item, err = p.parseInt(2, maxSize)
+		item, err = p.parseInt(2, sizeHint)
 	case secs2.Int32FormatCode:
-		item, err = p.parseInt(4, maxSize)
+		item, err = p.parseInt(4, sizeHint)
 	case secs2.Int64FormatCode:
-		item, err = p.parseInt(8, maxSize)
+		item, err = p.parseInt(8, sizeHint)
 	case secs2.Uint8FormatCode:
-		item, err = p.parseUint(1, maxSize)
+		item, err = p.parseUint(1, sizeHint)
 	case secs2.Uint16FormatCode:
-		item, err = p.parseUint(2, maxSize)
+		item, err = p.parseUint(2, sizeHint)
 	case secs2.Uint32FormatCode:
-		item, err = p.parseUint(4, maxSize)
+		item, err = p.parseUint(4, sizeHint)
 	case secs2.Uint64FormatCode:
-		item, err = p.parseUint(8, maxSize)
+		item, err = p.parseUint(8, sizeHint)
 	default:
 	}
 
